@@ -110,7 +110,7 @@ def run_property(mod, ctx, tier, seed, replay=None):
               % (run.rule.id, ex, okc, exm, len(run.findings), kn, run.rule.floor, run.rule.text[:90]))
     for f, k in known_seen:
         print("KNOWN-FINDING: property=%s %s [%s] %s:%s %s" % (prop, k.get("what", f["message"]), f["key"], f["file"], f["line"], f["message"][:200]))
-    rdir = os.path.join(VERIF, "replay", prop)
+    rdir = os.path.join(os.environ.get("VERIF_REPLAY_DIR", os.path.join(VERIF, "replay")), prop)
     for f in violations:
         os.makedirs(rdir, exist_ok=True)
         rp = os.path.join(rdir, hashlib.sha1(f["key"].encode()).hexdigest()[:12] + ".json")
@@ -162,7 +162,10 @@ def run_property(mod, ctx, tier, seed, replay=None):
     }
     if hasattr(mod, "extra_evidence"):
         ev["coverage"].update(mod.extra_evidence(ctx, runs))
-    os.makedirs(os.path.join(VERIF, "evidence"), exist_ok=True)
-    with open(os.path.join(VERIF, "evidence", prop + ".json"), "w") as fh:
+    if getattr(ctx, "extra_coverage", None):
+        ev["coverage"].update(ctx.extra_coverage)
+    evdir = os.environ.get("VERIF_EVIDENCE_DIR", os.path.join(VERIF, "evidence"))
+    os.makedirs(evdir, exist_ok=True)
+    with open(os.path.join(evdir, prop + ".json"), "w") as fh:
         json.dump(ev, fh, indent=1)
     return 1 if violations else 0
